@@ -201,6 +201,9 @@ structure Outcome where
   failed : Bool
   deriving DecidableEq, Repr
 
+/-- the error document main's Err arm prints under `--output json` when `Gen.errArmJsonDoc` (shape: `Gen.formatJsonShapes`) -/
+def errorDoc : Payload := .jsonOf n!"main::emit_json_error"
+
 /-- every status main's Err arm can produce -/
 def errCodes : List Nat := Gen.exitRules.map (·.2) ++ [Gen.exitDefault]
 
@@ -217,7 +220,8 @@ def outcome (r : Row) : Option Outcome :=
     match t.failed with
     | none => some { stdout := t.outs, stderrSites := t.errs, exitZero := Gen.exitOk == 0,
                      performed := t.calls, failed := false }
-    | some c => some { stdout := t.outs ++ List.replicate Gen.errArmStdoutSites .text,
+    | some c => some { stdout := t.outs ++ (if r.json && Gen.errArmJsonDoc then [errorDoc] else [])
+                                   ++ List.replicate Gen.errArmStdoutSites .text,
                        stderrSites := t.errs + Gen.errArmStderrSites,
                        exitZero := errCodes.any (· == 0),
                        performed := t.calls.filter (· != c), failed := true }
@@ -338,9 +342,10 @@ def docScenarios (cmd : Cmd) : List (Bool × Bool) :=
 
 /-! ## assumptions about the sources outside the handlers, pinned against the generated fingerprint -/
 
-/-- the stdout sites of the core library the model knows about: the preview print and the prompt inside
+/-- the stdout sites of the core library the model knows about (the generated list must be a sub-list: a site may disappear,
+    e.g. the prompt moving to stderr, but no new one may appear): the preview print and the prompt inside
     `rename_operation` (both unreachable when stdout is a pipe or `-y` is given), and the unused `write_preview` -/
-def assumedCoreSites : List (Name × Name × List Name × Nat) := [
+def knownCoreSites : List (Name × Name × List Name × Nat) := [
   (n!"operations/rename.rs", n!"rename_operation",
     [n!"let Some(format) = preview_format.as_ref()", n!"*format != 'none'", n!"!dry_run && !auto_approve"], 1),
   (n!"operations/rename.rs", n!"get_user_confirmation", [], 1),
